@@ -113,6 +113,9 @@ func (c *Ctx) Callees(fn *ssa.Function) []callEdge {
 	allInstrs(fn, func(in ssa.Instruction) {
 		if mc, ok := in.(*ssa.MakeClosure); ok {
 			cl := mc.Fn.(*ssa.Function)
+			if m := boundMethodTarget(mc); m != nil {
+				cl = m // `x.m` used as a function value: the callee is the method, not its synthetic wrapper
+			}
 			kind := "closure-made"
 			argOf := ""
 			if refs := mc.Referrers(); refs != nil {
